@@ -463,3 +463,50 @@ Lemma window_witness_facts :
   /\ scan_windows_pre_F24 window_witness = Some [(9%nat, MObj [49%N] [48%N]); (960%nat, MObj [50%N] [48%N])]
   /\ scan_windows window_witness = Some [(9%nat, MObj [49%N] [48%N])].
 Proof. repeat split; vm_compute; reflexivity. Qed.
+
+(* ---------- getTrailer: the newest complete trailer ---------- *)
+(* a section offers a trailer: its last xref stream reads and has /Root, or else its trailer
+   dictionary reads *)
+Definition offers {T} (s : tsec T) : option T :=
+  match ts_xstm s with
+  | Some (TOk (Some d)) => Some d
+  | _ => if Nat.eqb (ts_trailerpos s) 0 then None
+         else match ts_trailer s with TOk d => Some d | _ => None end
+  end.
+(* no byte-source failure is involved *)
+Definition no_source {T} (s : tsec T) : Prop :=
+  ts_xstm s <> Some TSource /\ (ts_trailerpos s <> 0%nat -> ts_trailer s <> TSource).
+
+Fixpoint first_offer {T} (secs : list (tsec T)) : option T :=
+  match secs with
+  | [] => None
+  | s :: rest => match offers s with Some d => Some d | None => first_offer rest end
+  end.
+
+Lemma get_trailer_newest_lemma {T} : forall (secs : list (tsec T)),
+  (forall s, In s secs -> no_source s) ->
+  get_trailer secs = match first_offer secs with Some d => Ok d | None => Err Other end.
+Proof.
+  induction secs as [|s rest IH]; intros H; [reflexivity|].
+  cbn [get_trailer first_offer]. unfold offers.
+  destruct (H s (or_introl eq_refl)) as [Hx Ht].
+  assert (IH' := IH (fun s' Hs' => H s' (or_intror Hs'))).
+  destruct (ts_xstm s) as [[[d|]| |]|] eqn:Ex; try reflexivity; try congruence;
+    (destruct (Nat.eqb_spec (ts_trailerpos s) 0) as [E0|N0]; [exact IH'|];
+     destruct (ts_trailer s) eqn:Et; [reflexivity|exact IH'|exfalso; apply (Ht N0); reflexivity]).
+Qed.
+
+(* spelled out: the chosen trailer belongs to the newest section that offers one, and every
+   newer section offers none *)
+Lemma get_trailer_split {T} (secs : list (tsec T)) d :
+  (forall s, In s secs -> no_source s) ->
+  get_trailer secs = Ok d ->
+  exists newer s older, secs = newer ++ s :: older /\ offers s = Some d /\ forall s', In s' newer -> offers s' = None.
+Proof.
+  intros Hns. rewrite get_trailer_newest_lemma by exact Hns. clear Hns.
+  induction secs as [|s rest IH]; cbn [first_offer]; [discriminate|].
+  destruct (offers s) as [d'|] eqn:Eo.
+  - intros E; inversion E; subst. exists [], s, rest. repeat split; auto. intros s' [].
+  - intros E. destruct (IH E) as (newer & s0 & older & -> & Ho & Hn).
+    exists (s :: newer), s0, older. repeat split; auto. intros s' [<-|Hs']; auto.
+Qed.
